@@ -323,6 +323,11 @@ func sameOutcome(impl, model string) bool {
 // shrink minimises a failing tree: subtrees as new roots, children in place of nodes, simpler
 // variable values.
 func (w *world) shrink(tc *tcase) *tcase {
+	return w.shrinkWith(tc, func(t *tcase) bool { bad, _, _ := w.failing(t); return bad })
+}
+
+// shrinkWith minimises a tree on which the predicate holds.
+func (w *world) shrinkWith(tc *tcase, failing func(*tcase) bool) *tcase {
 	cur := tc.clone()
 	cur.normalise()
 	try := func(cand *tcase) bool {
@@ -330,7 +335,7 @@ func (w *world) shrink(tc *tcase) *tcase {
 		if len(cand.vars) == 0 {
 			return false // a constant expression is another property (C02)
 		}
-		bad, _, _ := w.failing(cand)
+		bad := failing(cand)
 		if bad {
 			cur = cand
 		}
@@ -448,7 +453,13 @@ func run(c *hx.Ctx) error {
 		fmt.Sscan(n, &k)
 		return programStream(c, k, 0)
 	}
-	res.Rule = "stream 1: every binary/unary/shift/comparison/conversion operator × every integer kind × boundary-rich operand pairs (extremes, 0, ±1, 2^k±1, random), one tiny program each, three-way: Scriggo / generated VM term / Spec; stream 2: random typed expression trees of depth ≤ 4 over variables (local, parameter, package-level) and typed constants at every width, shifts with counts of every kind (small, ≥ width, huge; negative ones in their own sub-stream), division by zero under recover(); a case is non-trivial when it contains at least one operator applied to a variable; distinct by protocol line"
+	if n := os.Getenv("C01_DEV_COMPILE"); n != "" {
+		// development aid: only the compile stream
+		k := 0
+		fmt.Sscan(n, &k)
+		return compileStream(c, &world{c: c}, k, false)
+	}
+	res.Rule = "stream 1: every binary/unary/shift/comparison/conversion operator × every integer kind × boundary-rich operand pairs (extremes, 0, ±1, 2^k±1, random), one tiny program each, three-way: Scriggo / generated VM term / Spec; stream 2: random typed expression trees of depth ≤ 4 over variables (local, parameter, package-level) and typed constants at every width, shifts with counts of every kind (small, ≥ width, huge; negative ones in their own sub-stream), division by zero under recover(); stream 5 (compile): trees of the same generator (no negative counts) as `func e(v0 T0, …) { r := <expr>; println(r) }`, the disassembled code of `r := <expr>` against the emitter model of Model/Compile.lean line by line with the same register numbers, and the outcome against the model VM running the model's code; a case is non-trivial when it contains at least one operator applied to a variable; distinct by protocol line"
 	w := &world{c: c}
 
 	// known findings: replay the recorded minimal on the real code first
@@ -728,6 +739,10 @@ func run(c *hx.Ctx) error {
 				res.AddBreak(proto.Break{Kind: "correspondence", Name: "spec-vs-gc", Case: lines[i], Human: cases[i].human(), Impl: "gc: " + gcOut[i], Model: model[i]})
 			}
 		}
+	}
+	// ---- stream 5: the emitter model against the real emitter, instruction by instruction
+	if err := compileStream(c, w, c.N(3000, 30000), uintptrNotOK); err != nil {
+		return err
 	}
 	res.Histogram["scriggo-builds"] = w.builds
 
